@@ -209,7 +209,7 @@ def kinds : List KindSpec := [
   K "Phantom" [L "typing"] [("type", ref 2 0)] ["category"],
   K "Eclipsis" [] [] ["category", "type"],
   K "Expr_list" [] [] ["category", "type", "operand", "elements", "size"],
-  K "Overload" [L "typing"] [("type", ref 2 0)] ["category"],                                       -- impl:1429: never typed by a factory
+  K "Overload" [] [("type", .fails)] ["category"],                      -- impl:1429-1448: `typing` is never set and no client can reach it
   K "Overload#singleton" [] [] ["category", "type"],                                                -- impl:589-604
   K "Scope" [] [] ["category", "type", "elements", "size"],
   K "Scope#homogeneous" [] [] ["category", "type", "elements", "size"],
